@@ -30,7 +30,17 @@ RULE = ("random nestings (depth up to 8) of `with action`, `with action.context(
         "the creating block was left, garbage collected and no Action object kept by the harness: the inherited action stays current, blocks entered before or "
         "after restore it, messages are placed below it (compared by task_uuid/task_level values). part 'handover': `cm = action.context()` created in one place (under another "
         "current action, earlier, on another thread, in another asyncio task or context) and entered with `with cm:` elsewhere, 1-3 of them nested: creating changes "
-        "nothing where it is created, the action is current exactly inside the block where it is entered, leaving restores what was current there. non-trivial = an exceptional exit at "
+        "nothing where it is created, the action is current exactly inside the block where it is entered, leaving restores what was current there. "
+        "part 'endfault': a block (`with action:` made by start_action/start_task/ActionType, a log_call-decorated function, a preserve_context callable on the same or another thread) inside 0-3 "
+        "enclosing blocks is left - by return or by its own exception - while its end message cannot be written: the application logger the action was started with raises from write() for the "
+        "end message, or a registered destination raises KeyboardInterrupt (plain, or a real SIGINT under the default handler) / SystemExit / an application's BaseException class while handling "
+        "it; the application catches whatever comes out (0-1 enclosing blocks further up) and goes on: current_action() is again exactly the action that was current before entry, messages and "
+        "sibling blocks started afterwards are its children (or their own tasks when there was none). part 'testcase': capture_logging/validate_logging-decorated unittest methods called while an "
+        "action is current (runner or run() override wrapping each test case in `with start_action(...)`, an action entered in setUp through contextlib.ExitStack and left in tearDown / in a clean-up "
+        "registered by setUp / in a clean-up registered by the test method, an action entered in the test method and left by a clean-up), outcomes pass/fail/error/skip/BaseException, run with "
+        "TestCase.run(TestResult()) or debug(): in the test method, decorated helpers, tearDown, clean-ups and the decorator's assertion callback current_action() is the innermost block open at that "
+        "moment and what is logged there is its child (found in the registered destination or in the test's MemoryLogger), and after the test case has run completely current_action() is exactly what "
+        "it was before. non-trivial = an exceptional exit at "
         "depth >=2 (previous action not None); distinct by program shape")
 ASSUMPTIONS = ["generator-held blocks are closed only when the driver's context is what it was at the yield (properly nested use)"]
 BATCH = 50
@@ -50,6 +60,10 @@ def plan(tier, seed):
     specs += [{"part": "inherit", "seed": seed, "lo": i, "hi": min(q, i + 35), "tier": tier} for i in range(0, q, 35)]
     q = 300 if tier == "quick" else 3000
     specs += [{"part": "handover", "seed": seed, "lo": i, "hi": min(q, i + 50), "tier": tier} for i in range(0, q, 50)]
+    q = 800 if tier == "quick" else 8000
+    specs += [{"part": "endfault", "seed": seed, "lo": i, "hi": min(q, i + 100), "tier": tier} for i in range(0, q, 100)]
+    q = 360 if tier == "quick" else 3600
+    specs += [{"part": "testcase", "seed": seed, "lo": i, "hi": min(q, i + 60), "tier": tier} for i in range(0, q, 60)]
     return specs
 
 
@@ -993,8 +1007,597 @@ def handover_case(seed, i, res):
             "part": "handover", "case": i, "route": route, "dispatcher": disp, "worker": work, "jobs": njobs, "order": order, "problems": problems[:8]}})
 
 
+class _AppLogger(object):
+    """An application's own ILogger (think of a socket or a file on a disk that fills up): keeps what it is given in `sink`,
+    and raises what `fault()` makes for the messages `refuses(message)` picks."""
+
+    def __init__(self, sink, refuses, fault):
+        self.sink = sink
+        self.refuses = refuses
+        self.fault = fault
+        self.refused = 0
+
+    def write(self, dictionary, serializer=None):
+        if self.refuses(dictionary):
+            self.refused += 1
+            raise self.fault()
+        self.sink.append(dictionary)
+
+
+class _OwnError(Exception):
+    """what a block's own body raises"""
+
+
+def endfault_case(seed, i, res):
+    """A block that is left while its END MESSAGE cannot be written: the action was started with an application's own logger whose
+    write() raises for the end message, or a registered destination raises KeyboardInterrupt (also a real SIGINT under the default
+    handler) / SystemExit / an application's BaseException class while it handles the end message. The block - `with action:`, a
+    log_call-decorated function, a preserve_context callable (same thread / another thread) - sits in 0-3 enclosing blocks and is left
+    by return or by its own exception; the application catches whatever comes out (which exception that is, is not judged here) and goes
+    on in the enclosing block: current_action() is exactly what it was before entry, messages and sibling blocks attach there."""
+    import signal
+    import threading
+    from eliot import ActionType, current_action, log_call, log_message, preserve_context, start_action, start_task
+    from vf import excs
+    rng = random.Random("%s:C04:endfault:%d" % (seed, i))
+    form = ["with", "log_call", "with", "preserve"][i % 4]
+    depth = rng.choice([1, 1, 2, 2, 3, 0]) if form != "preserve" else rng.choice([1, 2, 3])
+    kinds = [rng.choice(["with", "with", "context", "run"]) for _ in range(depth)]
+    fault = rng.choice(["logger", "logger", "dest_sigint", "dest_kbi", "dest_exit", "dest_base"] if form == "with" else
+                       ["dest_sigint", "dest_kbi", "dest_exit", "dest_base"])
+    where = rng.choice(["same", "thread"]) if form == "preserve" else "same"
+    tkinds = [rng.choice(["with", "context", "run"]) for _ in range(rng.randint(0, 2))] if where == "thread" else []
+    if where == "thread" and fault == "dest_sigint":
+        fault = "dest_kbi"  # (a signal is handled by the main thread)
+    maker = rng.choice(["start_action", "start_action", "start_task", "ActionType"]) if form == "with" else form
+    leave = rng.choice(["return", "raise"])
+    with_child = rng.random() < 0.5
+    cross = 1 if (len(tkinds) if where == "thread" else depth) >= 2 and rng.random() < 0.25 else 0
+    faulty_first = rng.random() < 0.5
+    logger_exc = rng.choice(["OSError", "RuntimeError", "UserError", "UserBase"])
+    vtype = "eliot:remote_task" if form == "preserve" else "ef:victim"
+    problems = []
+    names = {}
+    ident = {}
+    keep = []
+    got = []
+    uuids_before = set()
+    c = res["counters"]
+    st = {"hits": 0, "caught": None, "victim_ran": 0}
+
+    def is_end(m):
+        return m.get("action_type") == vtype and m.get("action_status") in ("succeeded", "failed")
+
+    def faulty(m):
+        if is_end(m):
+            st["hits"] += 1
+            if fault == "dest_sigint":
+                signal.raise_signal(signal.SIGINT)  # (the default handler raises KeyboardInterrupt right here)
+                for _ in range(100):
+                    pass
+            elif fault == "dest_kbi":
+                raise KeyboardInterrupt()
+            elif fault == "dest_exit":
+                raise SystemExit(3)
+            else:
+                raise excs.UserBase("application is shutting down")
+
+    def make_logger_exc():
+        if logger_exc == "OSError":
+            return OSError(28, "No space left on device")
+        if logger_exc == "RuntimeError":
+            return RuntimeError("connection to the log collector is closed")
+        return getattr(excs, logger_exc)("log sink refuses")
+
+    app_logger = _AppLogger(got, is_end, make_logger_exc) if fault == "logger" else None
+    dests = [got.append] if fault == "logger" else ([faulty, got.append] if faulty_first else [got.append, faulty])
+    what = {"logger": "the application logger it was started with raised %s from write()" % logger_exc,
+            "dest_sigint": "a SIGINT (default handler: KeyboardInterrupt) arrived while a destination handled it",
+            "dest_kbi": "a destination raised KeyboardInterrupt", "dest_exit": "a destination raised SystemExit",
+            "dest_base": "a destination raised an application's BaseException class"}[fault]
+    block = {"with": "`with action:` block (%s)" % maker, "log_call": "call of a log_call-decorated function",
+             "preserve": "call of a preserve_context callable (%s)" % ("on another thread" if where == "thread" else "same thread")}[form]
+    how = "a %s was left by %s while its end message could not be written (%s)" % (block, "return" if leave == "return" else "its own exception", what)
+
+    def name(a):
+        return "None" if a is None else "<Action %s>" % names.get(id(a), "unknown")
+
+    def from_start(m):
+        return (m["task_uuid"], m["task_level"][:-1])
+
+    def register(a, label, start_message):
+        keep.append(a)
+        names[id(a)] = label
+        ident[id(a)] = from_start(start_message)
+
+    def placed(m, action, where_, start=False):
+        """m was logged where `action` was current before: it is a direct child of it / forms (starts) its own task"""
+        lvl = m["task_level"][:-2] if start else m["task_level"][:-1]
+        kind = "an action started" if start else "a message logged"
+        if action is None:
+            if lvl != [] or m["task_uuid"] in uuids_before:
+                problems.append("%s: %s there with no current action does not begin its own task: task_level %r, task_uuid is %s" % (
+                    where_, kind, m["task_level"], "that of an earlier action" if m["task_uuid"] in uuids_before else "new"))
+        elif id(action) in ident and (m["task_uuid"], lvl) != ident[id(action)]:
+            problems.append("%s: %s there is not a child of %s: task_level %r (that action's level is %r), same task: %r" % (
+                where_, kind, name(action), m["task_level"], ident[id(action)][1], m["task_uuid"] == ident[id(action)][0]))
+
+    def probe(action, where_):
+        c["context_probes"] = c.get("context_probes", 0) + 1
+        now = current_action()
+        if now is not action:
+            problems.append("%s: current_action() is %s, expected %s" % (where_, name(now), name(action)))
+        uuids_before.update(m["task_uuid"] for m in got)
+        k0 = len(got)
+        log_message(message_type="ef:probe")
+        if len(got) > k0:
+            placed(got[k0], action, where_)
+
+    def after_checks(before):
+        probe(before, "after " + how + "; what was current immediately before entry: " + name(before))
+        uuids_before.update(m["task_uuid"] for m in got)
+        k0 = len(got)
+        with start_action(action_type="ef:sibling") as s:
+            if len(got) > k0:
+                placed(got[k0], before, "sibling block entered after " + how, start=True)
+                register(s, "sibling", got[k0])
+            probe(s, "inside a sibling block entered after " + how)
+        probe(before, "after leaving a sibling block entered after " + how)
+
+    def inside_victim(inner, k0, before, check_parent):
+        st["victim_ran"] += 1
+        if len(got) > k0:
+            register(inner, "victim", got[k0])
+            if check_parent and maker != "start_task":
+                placed(got[k0], before, "the block that is going to be left with a fault", start=True)
+        if inner is None or inner is before:
+            problems.append("inside a %s current_action() is %s (before entry: %s)" % (block, name(inner), name(before)))
+            return
+        probe(inner, "inside the %s" % block)
+        if with_child:
+            with start_action(action_type="ef:inner") as ch:
+                keep.append(ch)
+                names[id(ch)] = "inner"
+            probe(inner, "inside the %s after a child block" % block)
+        if leave == "raise":
+            raise _OwnError("the block's own exception")
+
+    def victim_with():
+        before = current_action()
+        k0 = len(got)
+        if maker == "start_action":
+            a = start_action(app_logger, vtype)
+        elif maker == "start_task":
+            a = start_task(app_logger, vtype)
+        else:
+            a = ActionType(vtype, [], [], "")(app_logger)
+
+        def body():
+            with a:
+                if current_action() is not a:
+                    problems.append("inside `with action:` current_action() is %s, not that action" % name(current_action()))
+                inside_victim(a, k0, before, True)
+                return "value"
+        body()
+
+    def victim_log_call():
+        before = current_action()
+        k0 = len(got)
+
+        @log_call(action_type=vtype, include_result=rng.random() < 0.5)
+        def work(x):
+            inside_victim(current_action(), k0, before, True)
+            return x * 2
+        work(21)
+
+    def make_preserved():
+        def f(x):
+            inside_victim(current_action(), st["k0"], st["before"], False)
+            return x * 2
+        return preserve_context(f)
+
+    def call_preserved(g):
+        st["before"] = current_action()
+        st["k0"] = len(got)
+        g(21)
+
+    def scene(kinds_, victim, cross_, label):
+        """`victim()` runs inside len(kinds_) enclosing blocks; what it raises crosses cross_ of them, is caught, and the code goes on"""
+        stack = []
+        depth_ = len(kinds_)
+        catch_at = depth_ - cross_
+
+        def enter(level):
+            if level == catch_at:
+                before = stack[-1] if stack else None
+                try:
+                    descend(level)
+                except BaseException as e:
+                    st["caught"] = e
+                after_checks(before)
+            else:
+                descend(level)
+
+        def descend(level):
+            if level == depth_:
+                victim()
+                return
+            k0 = len(got)
+            a = start_action(action_type="ef:%s%d" % (label, level))
+            register(a, "%s-%d" % (label, level), got[k0])
+            prev = stack[-1] if stack else None
+            stack.append(a)
+            kind = kinds_[level]
+            try:
+                if kind == "with":
+                    with a:
+                        probe(a, "inside enclosing with-block %d" % level)
+                        enter(level + 1)
+                        probe(a, "enclosing with-block %d, at its end" % level)
+                elif kind == "context":
+                    try:
+                        with a.context():
+                            probe(a, "inside enclosing context() block %d" % level)
+                            enter(level + 1)
+                            probe(a, "enclosing context() block %d, at its end" % level)
+                    finally:
+                        a.finish()
+                else:
+                    def body():
+                        probe(a, "inside enclosing run() %d" % level)
+                        enter(level + 1)
+                        probe(a, "enclosing run() %d, at its end" % level)
+                    try:
+                        a.run(body)
+                    finally:
+                        a.finish()
+            finally:
+                stack.pop()
+            probe(prev, "after leaving enclosing block %d (%s) in which %s" % (level, kind, how))
+        enter(0)
+
+    old_handler = signal.getsignal(signal.SIGINT)
+    try:
+        signal.signal(signal.SIGINT, signal.default_int_handler)
+        add_destinations(*dests)
+        try:
+            if form == "with":
+                scene(kinds, victim_with, cross, "outer")
+            elif form == "log_call":
+                scene(kinds, victim_log_call, cross, "outer")
+            elif where == "same":
+                scene(kinds, lambda: call_preserved(make_preserved()), cross, "outer")
+            else:
+                def spawn():
+                    creator = current_action()
+                    g = make_preserved()
+                    probe(creator, "after preserve_context() made a callable")
+
+                    def in_thread():
+                        try:
+                            scene(tkinds, lambda: call_preserved(g), cross, "thread-outer")
+                            probe(None, "other thread, after all its blocks were left")
+                        except BaseException as e:
+                            problems.append("the other thread raised %r" % (e,))
+                    t = threading.Thread(target=in_thread)
+                    t.start()
+                    t.join(60)
+                    if t.is_alive():
+                        res["inconclusive"] = "end-fault scenario: thread did not end"
+                    probe(creator, "creating thread, after another thread ran the preserve_context callable in which " + how)
+                scene(kinds, spawn, 0, "outer")
+            probe(None, "after all blocks were left")
+        finally:
+            for d in dests:
+                try:
+                    remove_destination(d)
+                except ValueError:
+                    pass
+    except BaseException as e:
+        problems.append("end-fault scenario raised %r" % (e,))
+    finally:
+        signal.signal(signal.SIGINT, old_handler)
+    res["evals"] += 1
+    injected = (app_logger.refused if app_logger is not None else st["hits"]) > 0
+    if injected and st["caught"] is not None and st["victim_ran"]:
+        # reach: the fault really struck the end message and something came out of the block
+        key = "end_message_faults_" + form
+        c[key] = c.get(key, 0) + 1
+        d = c.setdefault("end_message_faults", {})
+        d[fault] = d.get(fault, 0) + 1
+        d = c.setdefault("end_fault_came_out", {})
+        d[type(st["caught"]).__name__] = d.get(type(st["caught"]).__name__, 0) + 1
+        res["nontrivial"].append(h(["endfault", form, maker, fault, kinds, tkinds, where, leave, cross, with_child]))
+    if problems:
+        res["violations"].append({"msg": problems[0], "mech": None, "detail": {
+            "part": "endfault", "case": i, "form": form, "made_with": maker, "fault": fault, "logger_raises": logger_exc if fault == "logger" else None,
+            "enclosing": kinds, "thread_enclosing": tkinds, "where": where, "left_by": leave, "crosses": cross,
+            "came_out": repr(st["caught"]), "problems": problems[:8]}})
+
+
+def testcase_case(seed, i, res):
+    """eliot.testing.capture_logging / validate_logging-decorated test methods called WHILE AN ACTION IS CURRENT: a runner (or a run()
+    override) that wraps each test case in `with start_action(...)`, a fixture action entered in setUp and left in tearDown / in a
+    clean-up, an action entered in the test body and left in a clean-up. A decorated test method is ordinary code inside those
+    blocks. The harness wrote every block, so it knows at each moment which one is innermost (shadow stack)."""
+    import contextlib
+    import unittest
+    import warnings
+    from eliot import current_action, log_message, start_action
+    from eliot.testing import capture_logging, validate_logging
+    from vf import excs
+    rng = random.Random("%s:C04:testcase:%d" % (seed, i))
+    arrangement = ["runner", "setup_teardown", "run_override", "setup_testcleanup", "setup_cleanup", "body_cleanup"][i % 6]
+    decorator = rng.choice(["capture", "capture", "capture", "validate"])
+    outer_kinds = [rng.choice(["with", "context", "run"]) for _ in range(rng.choice([0, 0, 1, 2]))]
+    outcome = rng.choice(["pass", "pass", "pass", "fail", "error", "skip", "baseexc"])
+    mode = "debug" if outcome == "pass" and arrangement != "run_override" and rng.random() < 0.3 else "run"
+    test_names = ["test_a", "test_b"][:rng.choice([1, 1, 2])]
+    with_callback = rng.random() < 0.5
+    helper_calls = rng.choice([0, 0, 0, 1]) if decorator == "capture" else 0
+    fixture_form = rng.choice(["action", "action", "context"])
+    problems = []
+    names = {}
+    ident = {}
+    keep = []
+    got = []
+    loggers = []
+    stack = []
+    marks = [0]
+    uuids_before = set()
+    c = res["counters"]
+    st = {"bodies_under_action": 0, "bodies": 0, "left_before_cleanups": 0, "cleanups_seen": 0}
+    add_destinations(got.append)
+
+    def name(a):
+        return "None" if a is None else "<Action %s>" % names.get(id(a), "unknown")
+
+    def sinks():
+        yield got
+        for lg in loggers:
+            yield lg.messages
+
+    def find(mark):
+        for s in sinks():
+            for m in reversed(s):
+                if m.get("mark") == mark:
+                    return m
+        return None
+
+    def all_uuids():
+        return set(m["task_uuid"] for s in sinks() for m in s if "task_uuid" in m)
+
+    def placed(m, action, where_, start=False):
+        lvl = m["task_level"][:-2] if start else m["task_level"][:-1]
+        kind = "an action started" if start else "a message logged"
+        if action is None:
+            if lvl != [] or m["task_uuid"] in uuids_before:
+                problems.append("%s: %s there with no current action does not begin its own task: task_level %r, task_uuid is %s" % (
+                    where_, kind, m["task_level"], "that of an earlier action" if m["task_uuid"] in uuids_before else "new"))
+        elif id(action) in ident and (m["task_uuid"], lvl) != ident[id(action)]:
+            problems.append("%s: %s there is not a child of %s: task_level %r (that action's level is %r), same task: %r" % (
+                where_, kind, name(action), m["task_level"], ident[id(action)][1], m["task_uuid"] == ident[id(action)][0]))
+
+    def cur():
+        return stack[-1] if stack else None
+
+    def probe(where_):
+        c["context_probes"] = c.get("context_probes", 0) + 1
+        want = cur()
+        now = current_action()
+        if now is not want:
+            problems.append("%s: current_action() is %s, expected %s" % (where_, name(now), name(want)))
+        uuids_before.clear()
+        uuids_before.update(all_uuids())
+        marks[0] += 1
+        log_message(message_type="tc:probe", mark=marks[0])
+        m = find(marks[0])
+        if m is not None:
+            placed(m, want, where_)
+            c["testcase_messages_placed"] = c.get("testcase_messages_placed", 0) + 1
+
+    def start(label, where_):
+        """start_action where the shadow stack says cur() is current; the start message is judged like a probe message"""
+        want = cur()
+        uuids_before.clear()
+        uuids_before.update(all_uuids())
+        marks[0] += 1
+        a = start_action(action_type="tc:" + label, mark=marks[0])
+        keep.append(a)
+        names[id(a)] = label
+        m = find(marks[0])
+        if m is not None:
+            ident[id(a)] = (m["task_uuid"], m["task_level"][:-1])
+            placed(m, want, where_, start=True)
+        return a
+
+    def enter_fixture(es, a, form_):
+        """the idiomatic ways to keep a block open across methods: contextlib.ExitStack"""
+        if form_ == "action":
+            es.enter_context(a)
+        else:
+            es.callback(a.finish)
+            es.enter_context(a.context())
+        stack.append(a)
+
+    def leave_fixture(es, a, where_):
+        if stack and stack[-1] is a:
+            es.close()
+            stack.pop()
+            probe("%s, right after leaving the block of %s" % (where_, name(a)))
+        else:
+            problems.append("harness: blocks left out of order")
+
+    def after_leaving_cleanup(where_):
+        st["cleanups_seen"] += 1
+        probe(where_)
+
+    def callback(test, logger):
+        probe("in the assertion callback of the decorator (runs as a clean-up)")
+
+    dec = capture_logging if decorator == "capture" else validate_logging
+    with warnings.catch_warnings():
+        warnings.simplefilter("ignore")
+
+        class T(unittest.TestCase):
+            def run(self, result=None):
+                if arrangement != "run_override":
+                    return unittest.TestCase.run(self, result)
+                a = start("per-test(run override)", "in a run() override, before the test case")
+                with a:
+                    stack.append(a)
+                    try:
+                        return unittest.TestCase.run(self, result)
+                    finally:
+                        probe("in a run() override's `with start_action(...)` block after TestCase.run() returned")
+                        stack.pop()
+
+            def setUp(self):
+                probe("in setUp")
+                if arrangement.startswith("setup"):
+                    self.fix = contextlib.ExitStack()
+                    self.fixture = start("fixture", "in setUp")
+                    enter_fixture(self.fix, self.fixture, fixture_form)
+                    probe("in setUp, inside the fixture action's block")
+                    if arrangement == "setup_cleanup":
+                        self.addCleanup(leave_fixture, self.fix, self.fixture, "in a clean-up registered by setUp (runs last)")
+
+            def tearDown(self):
+                probe("in tearDown")
+                if arrangement == "setup_teardown":
+                    leave_fixture(self.fix, self.fixture, "in tearDown")
+                    st["left_before_cleanups"] += 1
+
+            @capture_logging(None)
+            def helper(self, logger):
+                loggers.append(logger)
+                probe("inside a capture_logging-decorated helper called by the decorated test method")
+
+            def body(self, logger):
+                loggers.append(logger)
+                st["bodies"] += 1
+                if cur() is not None:
+                    st["bodies_under_action"] += 1
+                probe("inside the %s-decorated test method (%s)" % (dec.__name__, arrangement))
+                for _ in range(helper_calls):
+                    self.helper()
+                    probe("inside the decorated test method after a decorated helper returned")
+                if arrangement == "setup_testcleanup":
+                    self.addCleanup(after_leaving_cleanup, "in a clean-up that runs after the fixture action's block was left by an earlier clean-up")
+                    self.addCleanup(leave_fixture, self.fix, self.fixture, "in a clean-up registered by the test method")
+                    st["left_before_cleanups"] += 1
+                if arrangement == "body_cleanup":
+                    es = contextlib.ExitStack()
+                    b = start("entered-in-body", "in the decorated test method")
+                    self.addCleanup(leave_fixture, es, b, "in a clean-up registered by the test method")
+                    enter_fixture(es, b, fixture_form)
+                    probe("inside a block the decorated test method entered (a clean-up leaves it)")
+                ch = start("child", "in the decorated test method")
+                with ch:
+                    stack.append(ch)
+                    probe("inside a child block in the decorated test method")
+                    stack.pop()
+                probe("in the decorated test method after its child block")
+                self.addCleanup(probe, "in a clean-up registered by the test method (runs first)")
+                if outcome == "fail":
+                    self.fail("planned failure")
+                if outcome == "error":
+                    raise RuntimeError("planned error")
+                if outcome == "skip":
+                    raise unittest.SkipTest("planned skip")
+                if outcome == "baseexc":
+                    raise excs.UserBase("planned BaseException")
+
+            @dec(callback if with_callback else None)
+            def test_a(self, logger):
+                T.body(self, logger)
+
+            @dec(None)
+            def test_b(self, logger):
+                T.body(self, logger)
+
+    result = unittest.TestResult()
+
+    def run_one(t):
+        depth0 = len(stack)
+        try:
+            t.debug() if mode == "debug" else t.run(result)
+        except BaseException as e:
+            problems.append("running the test case raised %r" % (e,))
+        if len(stack) != depth0:
+            problems.append("harness: shadow stack is %d deep after the test case, %d before" % (len(stack), depth0))
+            del stack[depth0:]
+
+    def run_tests():
+        for tn in test_names:
+            t = T(tn)
+            sit = "%s test %s, %s; %s" % (dec.__name__, outcome, "TestCase.debug()" if mode == "debug" else "TestCase.run(TestResult())", {
+                "runner": "run inside the runner's `with start_action(...)`", "run_override": "run() override wraps the test case in `with start_action(...)`",
+                "setup_teardown": "action entered in setUp and left in tearDown, before the clean-ups",
+                "setup_testcleanup": "action entered in setUp and left by a clean-up the test method registered",
+                "setup_cleanup": "action entered in setUp and left by a clean-up setUp registered",
+                "body_cleanup": "action entered in the test method and left by a clean-up"}[arrangement])
+            if arrangement == "runner":
+                a = start("per-test", "in the runner")
+                with a:
+                    stack.append(a)
+                    run_one(t)
+                    probe("in the runner's block after the test case has run completely (%s)" % sit)
+                    stack.pop()
+            else:
+                run_one(t)
+            probe("after the test case has run completely (%s)" % sit)
+
+    def nest(level):
+        if level == len(outer_kinds):
+            run_tests()
+            return
+        a = start("outer-%d" % level, "enclosing code")
+        stack.append(a)
+        if outer_kinds[level] == "with":
+            with a:
+                nest(level + 1)
+        elif outer_kinds[level] == "context":
+            with a.context():
+                nest(level + 1)
+            a.finish()
+        else:
+            a.run(nest, level + 1)
+            a.finish()
+        stack.pop()
+        probe("after leaving enclosing block %d (%s) around the test run" % (level, outer_kinds[level]))
+
+    try:
+        nest(0)
+        probe("after everything")
+    except BaseException as e:
+        problems.append("decorated-test scenario raised %r" % (e,))
+    finally:
+        remove_destination(got.append)
+    res["evals"] += 1
+    if st["bodies"] != len(test_names):
+        res["inconclusive"] = "decorated test bodies ran %d times, planned %d" % (st["bodies"], len(test_names))
+    c["decorated_tests_called_under_an_action"] = c.get("decorated_tests_called_under_an_action", 0) + st["bodies_under_action"]
+    c["fixture_actions_left_before_cleanups"] = c.get("fixture_actions_left_before_cleanups", 0) + st["left_before_cleanups"]
+    d = c.setdefault("decorated_test_arrangements", {})
+    d[arrangement] = d.get(arrangement, 0) + st["bodies"]
+    res["nontrivial"].append(h(["testcase", arrangement, decorator, outer_kinds, outcome, mode, len(test_names), with_callback, helper_calls, fixture_form]))
+    if problems:
+        res["violations"].append({"msg": problems[0], "mech": None, "detail": {
+            "part": "testcase", "case": i, "arrangement": arrangement, "decorator": decorator, "enclosing": outer_kinds, "outcome": outcome, "mode": mode,
+            "tests": test_names, "assertion_callback": with_callback, "decorated_helper_calls": helper_calls, "fixture_entered_as": fixture_form,
+            "problems": problems[:8]}})
+
+
 def run_case(spec):
     res = {"evals": 0, "nontrivial": [], "counters": {}, "violations": [], "sample": None}
+    if spec.get("part") in ("endfault", "testcase"):
+        import contextvars
+        f = endfault_case if spec["part"] == "endfault" else testcase_case
+        for i in range(spec["lo"], spec["hi"]):
+            contextvars.copy_context().run(f, spec["seed"], i, res)  # a leaked current action must not reach the next case
+        res["sets"] = {"depths": []}
+        return res
     if spec.get("part") == "scenario":
         for i in range(spec["lo"], spec["hi"]):
             scenario_case(spec["seed"], i, res)
@@ -1037,4 +1640,11 @@ def finalize(agg, tier):
         return "no flow with an inherited context was probed after its creating block was left"
     if not agg["counters"].get("context_managers_entered_elsewhere", 0):
         return "no action.context() manager was entered elsewhere than it was created"
+    for form in ("with", "log_call", "preserve"):
+        if not agg["counters"].get("end_message_faults_" + form, 0):
+            return "no block of form %r was left with a fault striking its end message" % form
+    if not agg["counters"].get("decorated_tests_called_under_an_action", 0) or not agg["counters"].get("testcase_messages_placed", 0):
+        return "no capture_logging/validate_logging-decorated test method was called while an action was current"
+    if not agg["counters"].get("fixture_actions_left_before_cleanups", 0):
+        return "no decorated test ran with an action entered in setUp and left before the clean-ups"
     return None
